@@ -87,7 +87,7 @@ theorem reserveInternal_shape {c : Cfg} {v v' : VS} {used extra : Nat} {exact : 
       · simp only [if_true] at hx
         exact checkedAdd_some hx
     refine ⟨?_, hs⟩
-    cases hm : checkedMul c.esz nc with
+    cases hm : arrayLayout c.esz c.eal nc with
     | none => rw [hm] at h; cases h
     | some bytes =>
       rw [hm] at h
